@@ -15,6 +15,7 @@ type c18script struct {
 	Name  string
 	Email bool                           // needs TwoFactorEmailAuthRequired
 	Build func(s *sim.Sim) []*sim.Action // last action is the target
+	Setup func(s *sim.Sim)               // extra seeding before the script (optional)
 	Slow  bool                           // target pays cost-10 bcrypt x10: fewer error kinds
 }
 
@@ -103,6 +104,11 @@ var c18Scripts = []c18script{
 	{Name: "sms-validate-resend", Build: func(s *sim.Sim) []*sim.Action {
 		return []*sim.Action{act("login", 0, 2, "ok"), act("advance", 0, -9, "", "d", "11s"), act("sms_validate", 0, -9, "empty")}
 	}},
+	{Name: "sms-login-after-own-unfinished-sms-login", Setup: func(s *sim.Sim) { s.SetTwoFA(3, false, true) }, Build: func(s *sim.Sim) []*sim.Action {
+		// an unfinished own SMS login (the code went to the own phone), then — outside the resend limit —
+		// the victim's password in the same session: the request that may fail
+		return []*sim.Action{act("login", 0, 3, "ok"), act("advance", 0, -9, "", "d", "11s"), act("login", 0, 2, "ok")}
+	}},
 	{Name: "sms-validate-recovery", Build: func(s *sim.Sim) []*sim.Action {
 		return []*sim.Action{act("login", 0, 2, "ok"), act("sms_validate", 0, -9, "recovery")}
 	}},
@@ -156,6 +162,9 @@ func c18Sim(c *RunCtx, script c18script, err500, jsonMode bool, seedUnit int) (*
 	}
 	s.SetTwoFA(1, true, false)
 	s.SetTwoFA(2, false, true)
+	if script.Setup != nil {
+		script.Setup(s)
+	}
 	return s, nil
 }
 
@@ -191,15 +200,26 @@ func c18Run(c *RunCtx, script c18script, err500, jsonMode bool, unit, k int, fau
 	c17 := &c17mon{stats: c.Stats, typed: map[string]string{}}
 	vs = append(vs, c17.Post(s, target)...)
 	// (4) only-invalidates: re-present every credential the ledger holds as spent / dead
-	c1, c5, c12 := c01mon{c.Stats}, c05mon{c.Stats}, &c12mon{stats: c.Stats, lastTOTP: map[string]string{}}
+	c1, c2, c5, c12 := c01mon{c.Stats}, c02mon{c.Stats}, c05mon{c.Stats}, &c12mon{stats: c.Stats, lastTOTP: map[string]string{}}
 	probe := func(a *sim.Action) {
 		st := s.Exec(a)
 		c.Stats.Count("post-fault-probes")
 		vs = append(vs, c1.Check(s, st)...)
+		vs = append(vs, c2.Check(s, st)...)
 		vs = append(vs, c5.Check(s, st)...)
 		vs = append(vs, c12.Check(s, st)...)
 		s.Learn(st)
 		vs = append(vs, c17.Post(s, st)...)
+	}
+	// a login parked at the SMS step in the faulted browser: codes that were sent to OTHER phones (before
+	// or during the failed request) do not complete it
+	if pend := s.W.Sess.Of(s.Br[0].B)["sms_pending"]; pend != "" {
+		for i, ac := range s.Accts {
+			if ac.PID != pend && ac.Phone != "" && s.SMSSentToAny(ac.Phone) {
+				probe(act("sms_validate", 0, -9, "ownsms", "own", fmt.Sprint(i)))
+				c.Stats.Count("post-fault-sms-probes")
+			}
+		}
 	}
 	for i, ac := range s.Accts {
 		for _, o := range ac.OTPs {
